@@ -1,3 +1,2 @@
 import BklProofs.Facts.State
-#print axioms Bkl.F12_no_hidden_state
-#print axioms Bkl.F13_tools_stateless
+#print axioms Bkl.F12_types_known
